@@ -232,7 +232,9 @@ class Trained:
         g = {}
         ok, out, err = common.quiet_call(load_rules, self.omen_dir, g)
         if not ok:
-            return None, (out + err).strip().split("\n")[-1][:200]
+            lines = [l for l in (err + "\n" + out).split("\n") if l.strip()]
+            key = [l for l in lines if "Error parsing" in l or "Invalid level" in l or "Error:" in l or "codec" in l]
+            return None, (key[0] if key else lines[-1] if lines else "load_rules returned False")[:200]
         return g, None
 
 
